@@ -167,7 +167,9 @@ def _run_block_inner(args):
                     % (i, run_seed, traceback.format_exc(),
                        core.canon(case)[:2000])}
         signal.setitimer(signal.ITIMER_REAL, 0)
-        digests.append(res['digest'])
+        # the batch digest covers what was generated as well as what was
+        # observed
+        digests.append((core.digest_of(case), res['digest']))
         merge_stats(agg, res['stats'])
         if i < 3 or (i % 997 == 0 and len(samples) < 6):
             samples.append(chk.sample(case))
